@@ -88,6 +88,15 @@ pub fn git_env() {
 
 pub const SECRET: &[u8] = b"c08-secret";
 
+/// Quick tier on a loaded machine: git call sequences stop issuing further calls once this
+/// instant (ms since the epoch; 0 = no limit) has passed. Fewer calls explored, never a verdict.
+static GIT_DEADLINE_MS: std::sync::atomic::AtomicU64 = std::sync::atomic::AtomicU64::new(0);
+
+fn git_time_is_up() -> bool {
+    let d = GIT_DEADLINE_MS.load(std::sync::atomic::Ordering::Relaxed);
+    d != 0 && std::time::SystemTime::now().duration_since(std::time::UNIX_EPOCH).map(|t| t.as_millis() as u64 > d).unwrap_or(false)
+}
+
 pub fn open(kind: Kind, n: usize) -> Result<Backend, String> {
     let e = |e: taskchampion::Error| format!("{e:#}");
     match kind {
@@ -343,6 +352,10 @@ fn calls_case(kind: Kind, i: u64, seed: u64, n_calls: usize, out: &mut CaseOut) 
     let mut trail: Vec<String> = vec![];
     let sig = |call: &str, rel: &str| format!("{}/{call}/{rel}", kind.name());
     for step in 0..n_calls {
+        if matches!(kind, Kind::GitLocal | Kind::GitRemote | Kind::GitRemoteEarlyClones) && git_time_is_up() {
+            out.count("git_calls_skipped_for_time", (n_calls - step) as u64);
+            break;
+        }
         let h = rng.below(b.handles.len());
         let choice = rng.below(100);
         if choice < 45 {
@@ -571,6 +584,10 @@ fn e2e_case(kind: Kind, i: u64, seed: u64, out: &mut CaseOut) {
     let mut counter = 0;
     let steps = 6 + rng.below(8);
     for _ in 0..steps {
+        if matches!(kind, Kind::GitLocal | Kind::GitRemote | Kind::GitRemoteEarlyClones) && git_time_is_up() {
+            out.count("git_calls_skipped_for_time", 1);
+            break;
+        }
         let r = rng.below(n_rep);
         if rng.chance(1, 2) {
             counter += 1;
@@ -664,6 +681,12 @@ pub fn run(ctx: &Ctx) -> Outcome {
     let only_idx = ctx.replay.as_ref().and_then(|r| r.get("index").and_then(|s| s.as_u64()));
     let want = |s: &str| only.as_deref().map(|o| o == s).unwrap_or(true);
     let range = |n: u64| -> (u64, u64) { match only_idx { Some(i) => (i, i + 1), None => (0, n) } };
+    if ctx.tier == crate::report::Tier::Quick && only_idx.is_none() && std::env::var("TCV_NO_GIT_DEADLINE").is_err() {
+        let now = std::time::SystemTime::now().duration_since(std::time::UNIX_EPOCH).map(|t| t.as_millis() as u64).unwrap_or(0);
+        GIT_DEADLINE_MS.store(now + 300_000, std::sync::atomic::Ordering::Relaxed);
+    } else {
+        GIT_DEADLINE_MS.store(0, std::sync::atomic::Ordering::Relaxed);
+    }
     for kind in KINDS {
         let git = matches!(kind, Kind::GitLocal | Kind::GitRemote | Kind::GitRemoteEarlyClones);
         // budgets are in calls: git is ~50 ms per write
